@@ -1,6 +1,7 @@
 import Driver.Codec
 import Cirbo.Model.Gen
 import Cirbo.Model.Gen2
+import Cirbo.Model.Gen3
 /-! `gen` requests: run one generator program on a host circuit with a pinned uuid counter. -/
 open Lean Cirbo Driver
 
@@ -86,6 +87,16 @@ def genOp (j : Json) : Except String Json := do
     pure (finish jStrs (addPairwiseXor (← getStrs a "x") (← getStrs a "y") (← getOptStrs a "result_labels") (getBool a "add_outputs")) st)
   | "add_div_mod" => pure (finish jPairLists (addDivMod (← getStrs a "a") (← getStrs a "b") (getBool a "big_endian")) st)
   | "add_sqrt" => pure (finish jStrs (addSqrt (← getStrs a "ins") (getBool a "big_endian")) st)
+  | "add_mul" => pure (finish jStrs (addMul (← getStrs a "a") (← getStrs a "b") (getBool a "big_endian")) st)
+  | "add_mul_alter" => pure (finish jStrs (addMulAlter (← getStrs a "a") (← getStrs a "b") (getBool a "big_endian")) st)
+  | "add_mul_pow2_m1" => pure (finish jStrs (addMulPow2M1 (← getStrs a "a") (← getStrs a "b") (getBool a "big_endian")) st)
+  | "add_mul_karatsuba" => pure (finish jStrs (addMulKaratsuba (← getStrs a "a") (← getStrs a "b") (getBool a "big_endian")) st)
+  | "add_mul_karatsuba_with_efficient_sum" =>
+    pure (finish jStrs (addMulKaratsubaEff (← getStrs a "a") (← getStrs a "b") (getBool a "big_endian")) st)
+  | "add_mul_dadda" => pure (finish jStrs (addMulDadda (← getStrs a "a") (← getStrs a "b") (getBool a "big_endian")) st)
+  | "add_mul_wallace" => pure (finish jStrs (addMulWallace (← getStrs a "a") (← getStrs a "b") (getBool a "big_endian")) st)
+  | "add_square" => pure (finish jStrs (addSquare (← getStrs a "ins") (getBool a "big_endian")) st)
+  | "add_square_pow2_m1" => pure (finish jStrs (addSquarePow2M1 (← getStrs a "ins") (getBool a "big_endian")) st)
   | _ => throw s!"unknown generator {name}"
 
 end GenDrv
